@@ -11,7 +11,10 @@
  *                     A theorem over an uninterpreted symbol holds for every interpretation, in
  *                     particular for the exact one the leaf establishes on the integer domain.
  */
-struct Point { double x; double y; unsigned int id; unsigned short vn; };
+#define PACKED __attribute__((packed))   /* CBMC's C++ front end lays classes out without padding */
+struct PACKED Point { double x; double y; unsigned int id; unsigned short vn; };
+struct PACKED vec { void *d; size_t n; size_t cap; };
+struct PACKED Polygon { void *vptr; int _id; struct vec ps; struct vec ts; struct vec checkpointsOnRoute; };
 #define P(p) ((struct Point *)(p))
 #define FRESH_PT(p) __CPROVER_is_fresh(p, sizeof(struct Point))
 
@@ -221,6 +224,128 @@ void h_symmetry(void)
     __CPROVER_assert(s == PROPER(&c, &d, &a, &b), "LEMMA segmentIntersect symmetric under swapping the segments");
     __CPROVER_assert(s == PROPER(&b, &a, &c, &d), "LEMMA segmentIntersect symmetric under reversing the first segment");
     __CPROVER_assert(s == PROPER(&a, &b, &d, &c), "LEMMA segmentIntersect symmetric under reversing the second segment");
+    VERIF_CANARY;
+}
+#endif
+
+/* ------------------------------------------------------------ inPoly (convex containment), caller layer, any n */
+#if defined(JOB_inPoly)
+/* ghost edge: the edge ending at vertex verif_g; verif_gdir = orientation of q relative to it (what vecDir returns) */
+size_t verif_g; void *verif_ga, *verif_gb; int verif_gdir;
+int w_vecDir(void *a, void *b, void *c, double maybeZero)
+__CPROVER_requires(maybeZero >= 0.0)
+__CPROVER_ensures((a == verif_ga && b == verif_gb) ==> __CPROVER_return_value == verif_gdir)
+__CPROVER_ensures(__CPROVER_return_value >= -1 && __CPROVER_return_value <= 1)
+__CPROVER_assigns()
+;
+#define PG(p) ((struct Polygon *)(p))
+#define VTX(p, i) (&((struct Point *)PG(p)->ps.d)[i])
+_Bool w_inPoly(void *poly, void *q, _Bool countBorder)
+__CPROVER_requires(__CPROVER_is_fresh(poly, sizeof(struct Polygon)) && FRESH_PT(q))
+__CPROVER_requires(PG(poly)->ps.n >= 1 && PG(poly)->ps.n <= 1000000 && __CPROVER_is_fresh(PG(poly)->ps.d, PG(poly)->ps.n * sizeof(struct Point)))
+__CPROVER_requires(verif_g < PG(poly)->ps.n && verif_gb == VTX(poly, verif_g) && verif_ga == VTX(poly, (verif_g + PG(poly)->ps.n - 1) % PG(poly)->ps.n))
+__CPROVER_requires(verif_gdir >= -1 && verif_gdir <= 1)
+/* for EVERY edge (the ghost edge is arbitrary): a point reported inside is not strictly outside that edge ... */
+__CPROVER_ensures(__CPROVER_return_value ==> verif_gdir != -1)
+/* ... and with the border excluded it is strictly inside every edge */
+__CPROVER_ensures((__CPROVER_return_value && !countBorder) ==> verif_gdir == 1)
+__CPROVER_assigns()
+;
+void h_inPoly(void) { void *poly, *q; _Bool cb; w_inPoly(poly, q, cb); VERIF_CANARY; }
+#endif
+
+/* ------------------------------------------------------------ inPoly, BOUNDED equivalence (n <= NV) */
+#if defined(JOB_inPoly_bounded)
+#ifndef NV
+#define NV 4
+#endif
+_Bool w_inPoly(void *poly, void *q, _Bool countBorder);
+/* in this plain harness vecDir's shim resolves to the uninterpreted orientation itself */
+int w_vecDir(void *a, void *b, void *c, double maybeZero) { int r = ORI7(a, b, c, maybeZero); __CPROVER_assume(r >= -1 && r <= 1); return r; }
+void h_inPoly_bounded(void)
+{
+    struct Polygon poly; struct Point pts[NV], q; size_t n; _Bool cb;
+    __CPROVER_assume(n >= 1 && n <= NV);
+    poly.ps.d = pts; poly.ps.n = n; poly.ps.cap = NV;
+    _Bool r = w_inPoly(&poly, &q, cb);
+    _Bool none_out = 1, all_in = 1;
+    for (size_t i = 0; i < NV; i++) if (i < n) {
+        int o = ORI(&pts[(i + n - 1) % n], &pts[i], &q);
+        if (o == -1) none_out = 0;
+        if (o != 1) all_in = 0;
+    }
+    __CPROVER_assert(r == (cb ? none_out : all_in), "SPEC inPoly: inside iff no edge has the point strictly outside (border counted) / every edge has it strictly inside (border excluded)");
+    VERIF_CANARY;
+}
+#endif
+
+/* ------------------------------------------------------------ segmentIntersectPoint / rayIntersectPoint return codes (grid) */
+#if defined(JOB_segIntPoint) || defined(JOB_rayIntPoint)
+#define DONT_INTERSECT 0
+#define DO_INTERSECT 1
+#define PARALLEL 3
+#define DIRCROSS(a1, a2, b1, b2) ((IX(a2) - IX(a1)) * (IY(b2) - IY(b1)) - (IY(a2) - IY(a1)) * (IX(b2) - IX(b1)))
+#define BOXES_MEET(a1, a2, b1, b2) (MAXLL(MINLL(IX(a1), IX(a2)), MINLL(IX(b1), IX(b2))) <= MINLL(MAXLL(IX(a1), IX(a2)), MAXLL(IX(b1), IX(b2))) && \
+                                    MAXLL(MINLL(IY(a1), IY(a2)), MINLL(IY(b1), IY(b2))) <= MINLL(MAXLL(IY(a1), IY(a2)), MAXLL(IY(b1), IY(b2))))
+#define FOUR_ON_GRID(a1, a2, b1, b2) (FRESH_PT(a1) && FRESH_PT(a2) && FRESH_PT(b1) && FRESH_PT(b2) && ONGRID(a1) && ONGRID(a2) && ONGRID(b1) && ONGRID(b2))
+#endif
+#if defined(JOB_segIntPoint)
+int w_segIntPoint(void *a1, void *a2, void *b1, void *b2, double *x, double *y)
+__CPROVER_requires(FOUR_ON_GRID(a1, a2, b1, b2))
+__CPROVER_requires(__CPROVER_is_fresh(x, sizeof(double)) && __CPROVER_is_fresh(y, sizeof(double)))
+#ifdef SPLIT_LO
+__CPROVER_requires(P(a1)->x >= (double)SPLIT_LO && P(a1)->x <= (double)SPLIT_HI)
+#endif
+/* non-parallel lines: DO_INTERSECT iff the closed segments meet (each segment's end points on opposite closed sides of the other) */
+__CPROVER_ensures(DIRCROSS(a1, a2, b1, b2) != 0 ==> (__CPROVER_return_value ==
+    ((EXCROSS(a1, a2, b1) * EXCROSS(a1, a2, b2) <= 0 && EXCROSS(b1, b2, a1) * EXCROSS(b1, b2, a2) <= 0) ? DO_INTERSECT : DONT_INTERSECT)))
+/* parallel (or zero-length) segments never report a single intersection point */
+__CPROVER_ensures(DIRCROSS(a1, a2, b1, b2) == 0 ==> __CPROVER_return_value != DO_INTERSECT)
+__CPROVER_ensures((DIRCROSS(a1, a2, b1, b2) == 0 && __CPROVER_return_value == PARALLEL) ==>
+    (EXCROSS(a1, a2, b1) == 0 && EXCROSS(a1, a2, b2) == 0 && EXCROSS(b1, b2, a1) == 0 && EXCROSS(b1, b2, a2) == 0 && BOXES_MEET(a1, a2, b1, b2)))
+__CPROVER_ensures((DIRCROSS(a1, a2, b1, b2) == 0 && !(EXCROSS(a1, a2, b1) == 0 && EXCROSS(b1, b2, a1) == 0 && EXCROSS(a1, a2, b2) == 0 && EXCROSS(b1, b2, a2) == 0)) ==>
+    __CPROVER_return_value == DONT_INTERSECT)
+__CPROVER_ensures(__CPROVER_return_value == DONT_INTERSECT || __CPROVER_return_value == DO_INTERSECT || __CPROVER_return_value == PARALLEL)
+__CPROVER_assigns(*x, *y)
+;
+void h_segIntPoint(void) { void *a1, *a2, *b1, *b2; double *x, *y; w_segIntPoint(a1, a2, b1, b2, x, y); VERIF_CANARY; }
+#endif
+#if defined(JOB_rayIntPoint)
+int w_rayIntPoint(void *a1, void *a2, void *b1, void *b2, double *x, double *y)
+__CPROVER_requires(FOUR_ON_GRID(a1, a2, b1, b2))
+__CPROVER_requires(__CPROVER_is_fresh(x, sizeof(double)) && __CPROVER_is_fresh(y, sizeof(double)))
+/* the two lines have a unique common point iff their directions are not parallel */
+__CPROVER_ensures(__CPROVER_return_value == (DIRCROSS(a1, a2, b1, b2) == 0 ? PARALLEL : DO_INTERSECT))
+__CPROVER_assigns(*x, *y)
+;
+void h_rayIntPoint(void) { void *a1, *a2, *b1, *b2; double *x, *y; w_rayIntPoint(a1, a2, b1, b2, x, y); VERIF_CANARY; }
+#endif
+
+/* ------------------------------------------------------------ inPolyGen, BOUNDED: triangles and axis-parallel rectangles on the grid */
+#if defined(JOB_inPolyGen)
+_Bool w_inPolyGen(void *poly, void *q);
+void h_inPolyGen(void)
+{
+    struct Polygon poly; struct Point pts[4], q;
+    __CPROVER_assume(ONGRID(&q));
+#if SHAPE == 3
+    /* every non-degenerate triangle, both orientations */
+    __CPROVER_assume(ONGRID(&pts[0]) && ONGRID(&pts[1]) && ONGRID(&pts[2]) && EXCROSS(&pts[0], &pts[1], &pts[2]) != 0);
+    poly.ps.n = 3;
+    long long o0 = EXCROSS(&pts[0], &pts[1], &q), o1 = EXCROSS(&pts[1], &pts[2], &q), o2 = EXCROSS(&pts[2], &pts[0], &q);
+    _Bool inside = (o0 >= 0 && o1 >= 0 && o2 >= 0) || (o0 <= 0 && o1 <= 0 && o2 <= 0);     /* closed triangle */
+#else
+    /* every axis-parallel rectangle with positive area, both orientations */
+    double x0, x1, y0, y1; _Bool flip;
+    __CPROVER_assume(ONGRID1(x0) && ONGRID1(x1) && ONGRID1(y0) && ONGRID1(y1) && x0 < x1 && y0 < y1);
+    pts[0].x = x0; pts[0].y = y0; pts[2].x = x1; pts[2].y = y1;
+    pts[1].x = flip ? x0 : x1; pts[1].y = flip ? y1 : y0; pts[3].x = flip ? x1 : x0; pts[3].y = flip ? y0 : y1;
+    poly.ps.n = 4;
+    _Bool inside = x0 <= q.x && q.x <= x1 && y0 <= q.y && q.y <= y1;                          /* closed rectangle */
+#endif
+    poly.ps.d = pts; poly.ps.cap = 4;
+    _Bool r = w_inPolyGen(&poly, &q);
+    __CPROVER_assert(r == inside, "SPEC inPolyGen: a point is reported inside iff it lies in the closed polygon (interior, edges and vertices)");
     VERIF_CANARY;
 }
 #endif
